@@ -49,6 +49,22 @@ CLAIMED = {
    text="Every stored c^+_i, c_i (container adjoint shortcut and one-by-one) and c^+_i c_j of catalogue + random models under several partitions is rotated back to the Fock basis with the stored eigenvectors and compared by TLC (FieldOpTrace.tla) with the exact Jordan-Wigner matrix of spec/Fermion.tla to 1e-9 per entry; the part-by-part adjoint relation of stored c and c^+ is checked; CAR of the Jordan-Wigner matrices is checked by TLC, so the assembled anticommutators follow.",
    note="TLC; rotation arithmetic by Eigen in the harness; tolerance 1e-9; real build",
    tech="TLA+ Jordan-Wigner definition + TLC trace validation of rotated-back stored operators"),
+ "C09": dict(cat="model_checking", ref="6 C09",
+   text="On the exact family (Fock-diagonal integer models under rational canonical transformations; spec/Lehmann.tla) TLC checks the model obligations (canonical transformation, Hermitian expansion, sum rules) and prints the exact spectrum and average data; the library's weights for every state label, average energy, total/per-index occupancy, double occupancy and EnsembleAverage for all (i,j) are compared with the Gibbs state of the specification for beta from 1e-3 to 1e3 and offsets +-1000; on general models non-negativity, normalisation and the ratio law are checked against the library's own eigenvalues.",
+   note="TLC; mpmath comparator (projection between floats and exact integers); exact family for absolute values; tolerance 1e-9 + beta*1e-11*max|E|",
+   tech="TLA+ exact Lehmann definition + TLC; specification-predicted values compared with the library's outputs"),
+ "C01": dict(cat="model_checking", ref="6 C01",
+   text="TLC evaluates the definition of G_ij (Lehmann sum over ALL eigenstate pairs with exact integer matrix elements, symbolic weights; spec/Lehmann.tla) for every model of the exact family and checks sum rule and conjugation symmetry coefficient-wise; the library's values for every (i,j) (diagonal and off-diagonal; no S_z or N conservation, multi-orbital, degenerate spectra), Matsubara numbers -3..2, +-50, off-axis z, several beta, from a stand-alone object and from GFContainer, are compared with the specification within the deviation the property allows.",
+   note="TLC; mpmath comparator; exact family only (rational spectra); real build",
+   tech="TLA+ exact Lehmann definition + TLC; specification-predicted values compared with the library's outputs"),
+ "C11": dict(cat="model_checking", ref="6 C11",
+   text="Sum rule and conjugation symmetry are TLC invariants of the Lehmann data; on the exact family of_tau is compared with the specification on a tau grid incl. both ends for beta up to 400 (both overflow-avoiding branches); on general models (irrational spectra) conjugation symmetry on/off the axis, the 1/z tail, Im G_ii<0, G_ii(tau)<=0, G(0+)+G(beta-)=-delta, G_ii(beta-)=-<n_i> and the Matsubara-sum duality are checked on the library's own outputs.",
+   note="TLC; comparator; Matsubara-sum duality at 3e-3 (1200 frequencies, analytic tail)",
+   tech="TLA+ Lehmann invariants + TLC; specification-predicted G(tau); relational checks on library outputs"),
+ "C14": dict(cat="model_checking", ref="6 C14",
+   text="TLC evaluates the definition of chi_AB (bosonic Lehmann sum incl. the beta-proportional zero-pole contribution, exact integers; spec/Lehmann.tla) on the exact family; the library's Susceptibility at n in -2..2 and on a tau grid, for density-density, spin-flip and random operator pairs, without subtraction and with the three ways of supplying <A>,<B>, is compared with the specification; the subtracted object must differ from the plain one by beta<A><B> at W=0 only.",
+   note="TLC; comparator; exact family only",
+   tech="TLA+ exact Lehmann definition + TLC; specification-predicted values compared with the library's outputs"),
 }
 NOT_YET = "check not built yet in this round (planned in DESIGN.md section 6); not claimed until it runs"
 
